@@ -204,7 +204,12 @@ func (p *calcParser) _recover() bool {
 				if action < 0 {
 					prod := -action
 					rule := _rules[int(prod)]
-					state, _ = _Find(_goto, state, rule)
+					state, ok = _Find(_goto, state, rule)
+					if !ok {
+						// The reduction is simulated without popping: its goto may
+						// not exist in this state. Recovery is not possible from here.
+						break
+					}
 					continue
 				}
 
